@@ -227,7 +227,11 @@ CHECKS = {
              "readable at every crash point of backup/forget/prune. The code is bound to it by trace validation: each "
              "storage operation of the command under test is an event, RepoTrace.tla evaluates Readable/Dangling after every "
              "event (= every crash point of the observed linearisation) and compares with the real read path run on that "
-             "very store prefix; every single-operation failure position is re-executed on a copy of the pre-state.",
+             "very store prefix; every single-operation failure position is re-executed on a copy of the pre-state. "
+             "RepairIndex.tla is repair-index as a step machine over every small store / index state (duplicate, stale, marked "
+             "entries; lost and damaged packs): NothingLost at every step and crash point, Rebuilt / Complete at the end; it found "
+             "the defect repaired by b9e4409 (marked entry met first), whose history (interrupted prune, backup, repair-index / prune) "
+             "is now part of every run; the pre-fix orders are negative controls.",
         note="Assumes atomic failure of a single write/remove and crash = stop between two storage operations on an atomic "
              "in-memory store (no torn writes). Commands under test: backup, forget, prune (all options except the excluded "
              "instant+early-delete-index), repair index/snapshots, config, key add, merge, rewrite. Copy is covered under C12.",
